@@ -93,16 +93,9 @@ def defaults_of(fi) -> Dict[str, str]:
 
 def kw_options_of(fi) -> Dict[str, str]:
     """Options taken out of a keyword dictionary with a default: `<d>.pop("name", default)` / `<d>.get("name", default)`
-    where <d> is the function's **kwargs parameter (or a dict named kwargs). name -> default text (first occurrence)."""
-    kw = fi.node.args.kwarg.arg if fi.node.args.kwarg is not None else None
-    names = {kw, "kwargs"} - {None}
-    out: Dict[str, set] = {}
-    defs = single_defs(fi.node)
-    for n in ast.walk(fi.node):
-        if isinstance(n, ast.Call) and isinstance(n.func, ast.Attribute) and n.func.attr in ("pop", "get") and isinstance(n.func.value, ast.Name) \
-                and n.func.value.id in names and len(n.args) == 2 and isinstance(n.args[0], ast.Constant) and isinstance(n.args[0].value, str):
-            out.setdefault(n.args[0].value, set()).add(UK(expand_defs(n.args[1], defs)))
-    return {k: " | ".join(sorted(v)) for k, v in out.items()}
+    where <d> is the function's **kwargs parameter (or a dict named kwargs). name -> default text, written over what the
+    function was given (locals replaced by what they abbreviate at that point, see refusals_of); all defaults a name is read with."""
+    return refusals_of(fi, with_options=True)[1]
 
 
 def UK(e: ast.AST) -> str:
@@ -329,7 +322,7 @@ def _expand_env(e: ast.AST, env: Dict[str, ast.AST]) -> ast.AST:
     return T().visit(copy.deepcopy(e))
 
 
-def refusals_of(fi) -> List[dict]:
+def refusals_of(fi, with_options: bool = False):
     """One entry per Raise statement of the function (nested functions excluded): the exception type and the set of
     conditions that necessarily hold when it is reached (canonical atoms; a branch that ends in raise / return puts the
     negated test on everything after it, `a and b` true / `a or b` false are split, `not` is pushed into comparisons).
@@ -341,6 +334,7 @@ def refusals_of(fi) -> List[dict]:
     merged by equality, whatever a loop or try body assigns is unknown), so naming or un-naming a sub-expression, or
     re-using a name, does not change the signature. Objects that are filled in after creation (`x[i] = ..`) stay names."""
     out = []
+    kwopts: Dict[str, set] = {}
     mutated = set()
     for n in ast.walk(fi.node):
         if isinstance(n, (ast.Subscript, ast.Attribute)) and isinstance(n.ctx, (ast.Store, ast.Del)) and isinstance(n.value, ast.Name):
@@ -385,12 +379,32 @@ def refusals_of(fi) -> List[dict]:
     def same(a, b):
         return ast.dump(a) == ast.dump(b)
 
+    kw_ = fi.node.args.kwarg.arg if fi.node.args.kwarg is not None else None
+    kw_names = {kw_, "kwargs"} - {None}
+
+    def options_in(node, env):
+        for n in ast.walk(node):
+            if isinstance(n, ast.Call) and isinstance(n.func, ast.Attribute) and n.func.attr in ("pop", "get") and isinstance(n.func.value, ast.Name) \
+                    and n.func.value.id in kw_names and len(n.args) == 2 and isinstance(n.args[0], ast.Constant) and isinstance(n.args[0].value, str):
+                kwopts.setdefault(n.args[0].value, set()).add(UK(X(n.args[1], env)))
+
     def walk(stmts, conds, handler, env):
         """`env` is updated in place to what holds after the statements"""
         conds = list(conds)
         for st in stmts:
             if isinstance(st, (ast.FunctionDef, ast.AsyncFunctionDef, ast.ClassDef)):
                 continue
+            if isinstance(st, ast.If):
+                options_in(st.test, env)
+            elif isinstance(st, (ast.For, ast.AsyncFor)):
+                options_in(st.iter, env)
+            elif isinstance(st, ast.While):
+                options_in(st.test, env)
+            elif isinstance(st, (ast.With, ast.AsyncWith)):
+                for it_ in st.items:
+                    options_in(it_.context_expr, env)
+            elif not isinstance(st, ast.Try):
+                options_in(st, env)
             if isinstance(st, ast.Raise):
                 out.append(dict(kind="handler" if handler else ("guard" if conds else "plain"), exc=exc_name(st),
                                 conds=sorted(set(conds + ([f"<handler of {handler}>"] if handler else [])))))
@@ -419,7 +433,17 @@ def refusals_of(fi) -> List[dict]:
                 elif tb and te:
                     merged = {}
                 else:
-                    merged = {k: v for k, v in envb.items() if k in enve and same(v, enve[k])}
+                    merged = {}
+                    for k, v in envb.items():
+                        if k not in enve:
+                            continue
+                        if same(v, enve[k]):
+                            merged[k] = v
+                        else:
+                            # what the name abbreviates depends on the test: a conditional expression says exactly that
+                            phi = ast.IfExp(test=test, body=v, orelse=enve[k])
+                            if len(U(phi)) <= 300 and not any(isinstance(x_, ast.Name) and x_.id == k for x_ in ast.walk(test)):
+                                merged[k] = phi
                 env.clear()
                 env.update(merged)
             elif isinstance(st, (ast.For, ast.AsyncFor, ast.While)):
@@ -457,6 +481,17 @@ def refusals_of(fi) -> List[dict]:
         if k not in seen:
             seen.add(k)
             uniq.append(r)
+    if with_options:
+        # functions defined inside this one (decorator wrappers) read their own keyword dictionary: recorded with the outer function
+        for inner in ast.walk(fi.node):
+            if inner is not fi.node and isinstance(inner, (ast.FunctionDef, ast.AsyncFunctionDef)):
+                kwi = {inner.args.kwarg.arg if inner.args.kwarg is not None else None, "kwargs"} - {None}
+                defs_i = single_defs(inner)
+                for n in ast.walk(inner):
+                    if isinstance(n, ast.Call) and isinstance(n.func, ast.Attribute) and n.func.attr in ("pop", "get") and isinstance(n.func.value, ast.Name) \
+                            and n.func.value.id in kwi and len(n.args) == 2 and isinstance(n.args[0], ast.Constant) and isinstance(n.args[0].value, str):
+                        kwopts.setdefault(n.args[0].value, set()).add(UK(expand_defs(n.args[1], defs_i)))
+        return uniq, {k: " | ".join(sorted(v)) for k, v in kwopts.items()}
     return uniq
 
 
